@@ -245,6 +245,14 @@ pub fn scenario(g: &mut G, ctx: &RunCtx) -> RunReport {
     // an Accept-Encoding the caller (or a session) had set: replaced by the library's announcement when
     // compression is allowed, kept otherwise; what the server declares is decoded either way
     let caller_ae: Option<&'static str> = if g.chance(1, 5) { Some(*g.pick(&["gzip;q=1.0, identity;q=0.5", "*", "br", "identity"])) } else { None };
+    // (no draw) a caller who rules the response's own coding out (`;q=0`) and gets it all the same: what the
+    // response declares is undone, whatever the request said
+    let caller_ae: Option<&'static str> = match (caller_ae, coding) {
+        (Some("br"), Coding::Gzip) if payload.len() % 2 == 0 => Some("gzip;q=0"),
+        (Some("br"), Coding::Deflate) if payload.len() % 2 == 0 => Some("deflate;q=0, gzip;q=0"),
+        (Some("*"), Coding::Gzip) if payload.len() % 2 == 0 => Some("identity, gzip;q=0"),
+        (other, _) => other,
+    };
     if caller_ae.is_some() {
         g.probe("caller-sets-accept-encoding");
     }
